@@ -2,13 +2,23 @@
   Op decoding for the driver: maps one protocol line to model calls and prints
   the model's observation in the same canonical form as the C harness.
 -/
-import Xc.Gensalt
+import Xc.D0
 
 namespace Xc
 
 structure DriverState where
   osBytes : Bytes := []
+  objs : List (Nat × DataObj) := []
+  static : DataObj := { out := some [], scratchZero := true }
   deriving Inhabited
+
+def DriverState.getObj (st : DriverState) (id : Nat) : DataObj :=
+  match st.objs.find? (·.1 == id) with
+  | some (_, d) => d
+  | none => { out := some [], scratchZero := true }
+
+def DriverState.setObj (st : DriverState) (id : Nat) (d : DataObj) : DriverState :=
+  { st with objs := (id, d) :: st.objs.filter (·.1 != id) }
 
 def argBytes (s : String) : Option (Option Bytes) :=
   if s == "-" then some none
@@ -61,11 +71,95 @@ def opPreferred : String :=
   | none => "pref=NULL"
   | some p => s!"pref={showBytes p}"
 
+/-- rough cost (≈ microseconds) and memory (bytes) of hashing with `setting`; used to keep
+    hour-long settings away from the implementation (DESIGN §2 "compute budget") -/
+def costOf (cfg : Config) (setting : Option Bytes) : Nat × Nat :=
+  match setting with
+  | none => (0, 0)
+  | some s =>
+    if checkBadSaltChars s then (0, 0) else
+    match getHashFn cfg.table s with
+    | none => (0, 0)
+    | some h =>
+      match h.crypt with
+      | .md5crypt => (1000, 0)
+      | .sha256crypt =>
+        (match parseSha Gen.sha256_salt_prefix Gen.sha256_rounds_prefix Gen.SHA256_ROUNDS_DEFAULT Gen.SHA256_ROUNDS_MIN
+                Gen.SHA256_ROUNDS_MAX Gen.SHA256_SALT_LEN_MAX s with | .ok P => (P.rounds * 2, 0) | _ => (0, 0))
+      | .sha512crypt =>
+        (match parseSha Gen.sha512_salt_prefix Gen.sha512_rounds_prefix Gen.SHA512_ROUNDS_DEFAULT Gen.SHA512_ROUNDS_MIN
+                Gen.SHA512_ROUNDS_MAX Gen.SHA512_SALT_LEN_MAX s with | .ok P => (P.rounds * 3, 0) | _ => (0, 0))
+      | .sunmd5 => (match parseSunmd5 s with | .ok P => (P.nrounds * 2, 0) | _ => (0, 0))
+      | .sha1crypt => (match parseSha1 s with | .ok P => (P.iterations, 0) | _ => (0, 0))
+      | .nt => (1, 0)
+      | .descrypt => (25, 0)
+      | .bigcrypt => (400, 0)
+      | .bsdicrypt => (match dec24 s 1 with | some c => (c + 64, 0) | none => (0, 0))
+      | .bcrypt | .bcrypt_a | .bcrypt_x | .bcrypt_y =>
+        (match parseBf s with | some P => (2 ^ P.cost * 150, 0) | none => (0, 0))
+      | .yescrypt | .scrypt =>
+        (match parseYescrypt s Gen.CRYPT_OUTPUT_SIZE with
+         | some P => if yesKdfParamsOk P.params then (P.params.N * P.params.r * P.params.p * (P.params.t + 1) / 4, yesKdfMemory P.params) else (0, 0)
+         | none => (0, 0))
+      | .gost_yescrypt =>
+        (match parseYescrypt ([36, 121, 36] ++ s.drop 4) (Gen.CRYPT_OUTPUT_SIZE - 1) with
+         | some P => if yesKdfParamsOk P.params then (P.params.N * P.params.r * P.params.p * (P.params.t + 1) / 4, yesKdfMemory P.params) else (0, 0)
+         | none => (0, 0))
+
+def showObs (cfg : Config) (setting : Option Bytes) (d : DataObj) (o : CObs) (isStatic : Bool) : String :=
+  let ret := match o.ret with | none => "NULL" | some _ => "out"
+  let out := match d.out with | none => "unterminated" | some s => showBytes s
+  -- which method produced it (for the digest-dependent tail)
+  let (dig, exact) : Nat × Nat :=
+    match o.errno, setting, d.out with
+    | none, some s, some H =>
+      (match getHashFn cfg.table s with
+       | some h => (digestChars h.crypt H, if exactMethods.contains h.crypt then 1 else 0)
+       | none => (0, 1))
+    | _, _, _ => (0, 1)
+  let b (x : Bool) := if x then "1" else "0"
+  let (cost, mem) := costOf cfg setting
+  if isStatic then
+    s!"ret={ret} errno={showErr o.errno} out={out} wz={b o.wz} wu=? app=? abort=0 dig={dig} exact={exact} cost={cost} mem={mem}"
+  else
+    s!"ret={ret} errno={showErr o.errno} out={out} wz={b o.wz} wu={b o.wu} app={b o.app} abort=0 dig={dig} exact={exact} cost={cost} mem={mem}"
+
+def opObj (st : DriverState) (id fill : String) : DriverState × String :=
+  match id.toNat? with
+  | some id =>
+    let d : DataObj := if fill == "z" then { out := some [], scratchZero := true } else { out := none, scratchZero := false }
+    (st.setObj (id % 8) d, "ok")
+  | none => (st, "bad-op")
+
+def opCrypt (st : DriverState) (entry id phrase setting : String) (size : Option String) : DriverState × String :=
+  match id.toNat?, argBytes phrase, argBytes setting with
+  | some id, some p, some s =>
+    let id := id % 8
+    let cfg := Config.tree
+    let tokens := Gen.ENABLE_FAILURE_TOKENS_ == 1
+    if entry == "st" then
+      let (d, o) := cryptR cfg D0 tokens p s st.static
+      ({ st with static := d }, showObs cfg s d o true)
+    else
+      let d0 := st.getObj id
+      if entry == "r" then
+        let (d, o) := cryptR cfg D0 tokens p s d0
+        (st.setObj id d, showObs cfg s d o false)
+      else if entry == "rn" then
+        let sz : Int := match size with | some z => z.toInt?.getD 0 | none => Gen.sizeof_crypt_data
+        let (d, o) := cryptRn cfg D0 p s d0 sz
+        (st.setObj id d, showObs cfg s d o false)
+      else (st, "bad-op")
+  | _, _, _ => (st, "bad-op")
+
 def stepOp (st : DriverState) (toks : List String) : DriverState × String :=
   match toks with
   | ["G", entry, pfx, count, rb, nrb, osz] => (st, opGensalt st entry pfx count rb nrb osz)
   | ["K", s] => (st, opChecksalt s)
   | ["KE", s] => (st, opChecksaltEnum s)
+  | "O" :: id :: fill :: _ => opObj st id fill
+  | ["C", entry, id, p, s] => opCrypt st entry id p s none
+  | ["C", entry, id, p, s, sz] => opCrypt st entry id p s (some sz)
   | ["P"] => (st, opPreferred)
   | ["OS", b] =>
     match argBytes b with
